@@ -280,9 +280,9 @@ class TAX1099R_V100(Aggregate):
         # "[IRASEPSIMP] is required if any of the following tags are present in
         # the 1099R aggregate: GROSSDIST, TAXAMT, FEDTAXWH, STTAXWH,
         # or LCLTAXWH"
-        has_irasepsimp = "irasepsimp" in kwargs
+        has_irasepsimp = kwargs.get("irasepsimp") not in (None, "")
         for tag in ("grossdist", "taxamt", "fedtaxwh", "sttaxwh", "lcltaxwh"):
-            if tag in kwargs and not has_irasepsimp:
+            if kwargs.get(tag) not in (None, "") and not has_irasepsimp:
                 msg = (
                     "{}.__init__(): irasepsimp must also be provided if {} is provided"
                 )
